@@ -55,13 +55,13 @@ Definition of_bytes (d : list B) : bvec := append empty (wrap false d).
 (* State.mslice(loc, size):   if not size: return ByteVec()
                               stop = loc + size ; return self.memory.slice(start=loc, stop=stop) *)
 Definition mslice (mem : bvec) (loc size : nat) : bvec :=
-  if zb1 mslice_empty size then empty
+  if zb2 mslice_empty loc size then empty
   else bslice B zero mem (zn2 mslice_start loc size) (zn2 mslice_stop loc size).
 
 (* State.set_mslice(loc, data):   size = len(data) ; if not size: return
                                   stop = loc + size ; self.memory.set_slice(start=loc, stop=stop, value=data) *)
 Definition set_mslice (mem : bvec) (loc : nat) (data : bvec) : option bvec :=
-  if zb1 set_mslice_skip (blen data) then Some mem
+  if zb2 set_mslice_skip loc (blen data) then Some mem
   else set_slice B zero mem (zn2 set_mslice_start loc (blen data)) (zn2 set_mslice_stop loc (blen data))
                  (as_chunk None data).
 
@@ -121,13 +121,13 @@ Definition mb_apply (e : menv) (st : mframe) (o : mbop) : mres mframe :=
   | MMStore8 loc sym x => lift st (set_byte B zero mem loc sym x)
   | MCopyIn MCalldata loc off size =>
       (* if size: data = ex.message().calldata_slice(offset, size) ; state.set_mslice(loc, data) *)
-      if zb1 calldatacopy_do size then
+      if zb3 calldatacopy_do loc off size then
         lift st (set_mslice mem (zn3 calldatacopy_dst loc off size)
                    (calldata_slice (m_cd e) (zn3 calldatacopy_a1 loc off size) (zn3 calldatacopy_a2 loc off size)))
       else ROk st
   | MCopyIn MCode loc off size =>
       (* if size: codeslice = ex.pgm.slice(int(offset), size) ; state.set_mslice(loc, codeslice) *)
-      if zb1 codecopy_do size then
+      if zb3 codecopy_do loc off size then
         lift st (set_mslice mem (zn3 codecopy_dst loc off size)
                    (contract_slice (m_code e) (zn3 codecopy_a1 loc off size) (zn3 codecopy_a2 loc off size)))
       else ROk st
@@ -136,7 +136,7 @@ Definition mb_apply (e : menv) (st : mframe) (o : mbop) : mres mframe :=
                   codeslice = account_code.slice(offset, size) if account_code is not None
                               else ByteVec().slice(offset, offset + size)
                   state.set_mslice(loc, codeslice) *)
-      if zb1 extcodecopy_do size then
+      if zb3 extcodecopy_do loc off size then
         lift st (set_mslice mem (zn3 extcodecopy_dst loc off size)
                    match c with
                    | Some code => contract_slice code (zn3 extcodecopy_a1 loc off size) (zn3 extcodecopy_a2 loc off size)
@@ -148,13 +148,13 @@ Definition mb_apply (e : menv) (st : mframe) (o : mbop) : mres mframe :=
       (* if offset + size > ex.returndatasize(): raise OutOfBoundsRead
          if size: data = ex.returndata().slice(offset, offset + size) ; state.set_mslice(loc, data) *)
       if zb4 returndatacopy_oob loc off size (blen (m_rd st)) then RHalt
-      else if zb1 returndatacopy_do size then
+      else if zb3 returndatacopy_do loc off size then
         lift st (set_mslice mem (zn3 returndatacopy_dst loc off size)
                    (bslice B zero (m_rd st) (zn3 returndatacopy_a1 loc off size) (zn3 returndatacopy_a2 loc off size)))
       else ROk st
   | MMCopy dst src size =>
       (* if size: data = state.mslice(src_offset, size) ; state.set_mslice(dst_offset, data) *)
-      if zb1 mcopy_do size then
+      if zb3 mcopy_do dst src size then
         lift st (set_mslice mem (zn3 mcopy_dst dst src size)
                    (mslice mem (zn3 mcopy_a1 dst src size) (zn3 mcopy_a2 dst src size)))
       else ROk st
@@ -179,12 +179,12 @@ Fixpoint mb_run (e : menv) (st : mframe) (ops : list mbop) : mres mframe :=
      data = returndata.slice(0, effective_ret_size) if effective_ret_size < actual_ret_size else returndata
      ex.st.set_mslice(ret_loc, data) *)
 Definition copy_returndata_to_memory (rd : bvec) (ret_loc ret_size : nat) (mem : bvec) : option bvec :=
-  let eff := zn2 retcopy_effective ret_size (blen rd) in
-  if zb1 retcopy_skip eff then Some mem
+  let actual := blen rd in
+  if zb2 retcopy_skip ret_size actual then Some mem
   else
     let data :=
-      if zb2 retcopy_partial eff (blen rd)
-      then bslice B zero rd (zn2 retcopy_slice_start eff (blen rd)) (zn2 retcopy_slice_stop eff (blen rd))
+      if zb2 retcopy_partial ret_size actual
+      then bslice B zero rd (zn2 retcopy_slice_start ret_size actual) (zn2 retcopy_slice_stop ret_size actual)
       else rd in
     set_mslice mem ret_loc data.
 
